@@ -483,6 +483,7 @@ PROPS["C17"] = dict(
     runs={
         "quick": [
             dict(_st, harness="VerifHarness_C17_files2", reach=["reversible", "irreversible"], flags=["-domain"]),
+            dict(_st, harness="VerifHarness_C17_long", reach=["reversible"]),
             dict(_my, harness="VerifHarness_C17_mysql", reach=["reverse"]),
             dict(_pg, harness="VerifHarness_C17_postgres", reach=["reverse"]),
             dict(_lt, harness="VerifHarness_C17_sqlite", reach=["reverse", "irreversible"]),
@@ -493,6 +494,7 @@ PROPS["C17"] = dict(
         "thorough": [
             dict(_st, harness="VerifHarness_C17_files2", reach=["reversible", "irreversible"]),
             dict(_st, harness="VerifHarness_C17_files3", reach=["reversible", "irreversible"], flags=["-domain"], cross=False),
+            dict(_st, harness="VerifHarness_C17_long", reach=["reversible"]),
             dict(_my, harness="VerifHarness_C17_mysql", reach=["reverse"]),
             dict(_pg, harness="VerifHarness_C17_postgres", reach=["reverse"]),
             dict(_lt, harness="VerifHarness_C17_sqlite", reach=["reverse", "irreversible"]),
@@ -503,7 +505,8 @@ PROPS["C17"] = dict(
     },
     bounds={
         "quick": "plans of 1..2 changes whose Reverse is nil / a string / an empty list / 1 or 2 statements with one symbolic byte each "
-                 "(letters, digits, space, underscore, comma), optional comments, x {golang-migrate, goose, flyway, dbmate} formatters; planner plans: "
+                 "(letters, digits, space, underscore, comma), optional comments, x {golang-migrate, goose, flyway, dbmate} formatters; long plans of 1, 5, 12, 13, 14, 20 or 33 changes with one reverse "
+                 "statement each (one symbolic byte); planner plans: "
                  "8 change sets per dialect (MySQL, PostgreSQL, SQLite); restore content: drop table / drop index / change default / drop check / drop "
                  "foreign key / drop column+index of a table whose default, index predicate and check expression are 2-digit solver-chosen markers "
                  "and whose index is unique / descending / partial and column nullable by symbolic booleans (SQLite: the first three sets)",
@@ -533,6 +536,9 @@ _c20 = [
     dict(_pg, harness="VerifHarness_C20_postgres", reach=["compared"]),
     dict(_pg, harness="VerifHarness_C20_postgres_scope", reach=["compared"]),
     dict(_lt, harness="VerifHarness_C20_sqlite", reach=["compared"]),
+    dict(_my, harness="VerifHarness_C20_mysql_replan", reach=["compared"]),
+    dict(_pg, harness="VerifHarness_C20_postgres_replan", reach=["compared"]),
+    dict(_lt, harness="VerifHarness_C20_sqlite_replan", reach=["compared"]),
 ]
 def _c20_hcl(dev):
     return [dict(c, **_hclfull, harness="VerifHarness_C20_%s_hcl" % d, reach=["compared"], flags=["-mapdev", str(dev)])
@@ -545,7 +551,8 @@ PROPS["C20"] = dict(
         "quick": "schedule = iteration order of every `range` over a map inside ariga.io/atlas code (all permutations for maps of <=3 entries; identity, "
                  "reverse and one rotation beyond) x write order of 4 directory files x 4 declaration orders of a 3-table change set with chain / cycle / "
                  "diamond+self foreign keys, for the MySQL, PostgreSQL and SQLite planners, MemDir listing/checksum/sum file, DefaultFormatter, and the "
-                 "multi-schema rejection message; HCL evaluation: 3 file sets (same base name in two directories; a foreign key across files; three "
+                 "multi-schema rejection message; planning the same change objects twice (a table modification of 4 sub-changes in 5 orders plus an added and "
+                 "a dropped table); HCL evaluation: 3 file sets (same base name in two directories; a foreign key across files; three "
                  "files with two sharing a base name) per dialect, parsed by the real hclparse, evaluated (EvalHCL) and re-marshalled (MarshalHCL), "
                  "with at most 1 map range per path iterating in a permuted order (-mapdev 1)",
         "thorough": "same; HCL evaluation with at most 2 permuted map ranges per path",
@@ -557,7 +564,8 @@ PROPS["C20"] = dict(
     outside="HCL documents beyond the three file sets, more simultaneous permuted map ranges than the bound, cross-process runs, goroutine interleavings / the race detector (the engine is single-threaded), "
             "pointer-address dependent behaviour, maps with more than 3 entries beyond three orders",
     claim="For every explored map-iteration order the planners' statements (and reverse statements), directory listings, sum files and formatted files "
-          "are byte-identical; permuting the declaration order of the change set yields the same multiset of statements and flags; evaluating "
+          "are byte-identical; permuting the declaration order of the change set yields the same multiset of statements and flags; planning the same "
+          "changes twice gives the same statements and leaves the caller's change lists untouched; evaluating "
           "the same HCL files and marshalling the result gives the same bytes under every explored map order.",
     technique="bounded schedule exploration on the real code from go/ssa: the iteration order of every map range in Atlas code, write orders and declaration orders are choice points of the engine (a schedule space, enumerated exhaustively within the bound; the inputs carry no data for z3 to decide); outputs compared bytewise; counterexamples replayed natively (repeated, since Go's real order is random)",
     note="Schedule enumeration on the real SSA; no concurrency. Trusted: engine's ordered-map model (Go's real order is unspecified; every order the "
